@@ -10,6 +10,7 @@ import (
 	_ "verifharness/internal/props/c09"
 	_ "verifharness/internal/props/c12"
 	_ "verifharness/internal/props/c13"
+	_ "verifharness/internal/props/c14"
 	_ "verifharness/internal/props/c15"
 	_ "verifharness/internal/props/c16"
 	_ "verifharness/internal/props/c17"
